@@ -2,6 +2,7 @@ package identity
 
 import (
 	"bytes"
+	"crypto"
 	"encoding/json"
 	"fmt"
 	"io"
@@ -222,6 +223,30 @@ func (k *Key) PGPEntity() *openpgp.Entity {
 		PrivateKey: k.private,
 		Identities: map[string]*openpgp.Identity{},
 	}
+
+	if k.private == nil {
+		// Without the private key (someone else's key, used to verify a signature), the user id
+		// can't be self-signed. That self-signature is not verified when checking a detached
+		// signature, but it needs to exist and to flag the key as able to sign.
+		uid := packet.NewUserId("name", "", "")
+		isPrimaryId := true
+		e.Identities[uid.Id] = &openpgp.Identity{
+			Name:   uid.Id,
+			UserId: uid,
+			SelfSignature: &packet.Signature{
+				SigType:     packet.SigTypePositiveCert,
+				PubKeyAlgo:  k.public.PubKeyAlgo,
+				Hash:        crypto.SHA256,
+				IssuerKeyId: &k.public.KeyId,
+				IsPrimaryId: &isPrimaryId,
+				FlagsValid:  true,
+				FlagSign:    true,
+				FlagCertify: true,
+			},
+		}
+		return e
+	}
+
 	// somehow initialize the proper fields with identity, self-signature ...
 	err := e.AddUserId("name", "", "", nil)
 	if err != nil {
